@@ -1,26 +1,20 @@
 import Lean.Data.Json
 import ActsModel.Driver.Util
-import ActsModel.Spec.Lifecycle
+import ActsModel.Driver.Lifecycle
 import ActsModel.Driver.Store
 import ActsModel.Driver.Msg
-open Lean Acts Acts.Driver
+import ActsModel.Driver.Value
+open Lean Acts.Driver
 
-/-- C02: evaluate the lifecycle monitor on a transition trace `[[key, old, new], …]` -/
-def c02Monitor (req : Json) : Json :=
-  let trs : List Spec.Tr := (jarr req "trace").toList.map fun t =>
-    let a := asArr t
-    { key := asStr a[0]!, old := Gen.TaskState.ofStr (asStr a[1]!), new := Gen.TaskState.ofStr (asStr a[2]!) }
-  let bad := Spec.firstIllegal [] 0 trs
-  let gap := Spec.firstGap [] 0 trs
-  Json.mkObj [("ok", Json.bool (bad.isNone && gap.isNone)), ("illegal", optNat bad), ("gap", optNat gap)]
-
-def dispatch (req : Json) : Json :=
+def dispatch (req : Lean.Json) : Lean.Json :=
   match jstr req "cmd" with
   | "c02.monitor" => c02Monitor req
   | "c10.run" => storeRun req
   | "c09.run" => msgRun req
-  | "ping" => Json.mkObj [("pong", Json.bool true)]
-  | c => Json.mkObj [("error", Json.str s!"unknown cmd {c}")]
+  | "c14.value" => valueCase req
+  | "c14.tmpl" => tmplCase req
+  | "ping" => Lean.Json.mkObj [("pong", Lean.Json.bool true)]
+  | c => Lean.Json.mkObj [("error", Lean.Json.str s!"unknown cmd {c}")]
 
 partial def loop (h : IO.FS.Stream) (out : IO.FS.Stream) : IO Unit := do
   let line ← h.getLine
@@ -28,9 +22,9 @@ partial def loop (h : IO.FS.Stream) (out : IO.FS.Stream) : IO Unit := do
   if line.trimAscii.isEmpty then
     loop h out
   else
-    match Json.parse line with
+    match Lean.Json.parse line with
     | .ok j => out.putStrLn (dispatch j).compress
-    | .error e => out.putStrLn (Json.mkObj [("error", Json.str s!"parse: {e}")]).compress
+    | .error e => out.putStrLn (Lean.Json.mkObj [("error", Lean.Json.str s!"parse: {e}")]).compress
     loop h out
 
 def main : IO Unit := do
